@@ -92,6 +92,17 @@ type exprInst struct {
 	owner  int
 	// registry model bookkeeping (C20): index into the model's Expr table
 	midx int
+	// resultVar: an earlier result was registered on it as $prev (no
+	// time-independent reference exists for its evaluations)
+	resultVar bool
+}
+
+// trackedVar is a result value that became a registered variable.
+type trackedVar struct {
+	val      interface{}
+	canon    string
+	from     int
+	reported bool
 }
 
 // OpResult is what a task records about one operation. It is written by the
@@ -108,6 +119,7 @@ type OpResult struct {
 	CtxArgs  []string // arguments received by $xctx
 	Handlers []string // what the handlers and the body of $xboth saw, in call order
 	UndefIn  int      // times the body of $xundef was entered
+	val      interface{} // raw result of a successful Eval (task-local)
 	T0, T1   int64    // simulated clock around the op (engine B)
 	Steps    int
 }
@@ -139,6 +151,7 @@ type runner struct {
 	refs    map[string]string // triple key -> reference outcome
 	refStep map[string]int
 	results [][]OpResult
+	tracked [][]trackedVar // per task: results registered as variables
 	sched   *engine.Sched
 	stamp   int
 	model   *regModel
@@ -452,6 +465,7 @@ func Execute(spec *Spec, opt Options) *Result {
 	}
 	r.results = make([][]OpResult, len(spec.Tasks))
 	r.priv = make([]map[string]*exprInst, len(spec.Tasks))
+	r.tracked = make([][]trackedVar, len(spec.Tasks))
 	for i, ops := range spec.Tasks {
 		r.results[i] = make([]OpResult, len(ops))
 		r.priv[i] = map[string]*exprInst{}
@@ -694,6 +708,26 @@ func (r *runner) execOp(t *engine.Task, ti, oi int, op *Op, res *OpResult) {
 		v, err := ei.e.Eval(in)
 		res.Err = err
 		res.Outcome = oracle.Outcome(v, err)
+		if err == nil {
+			res.val = v
+		}
+	case "eregresult":
+		// the value returned by an earlier evaluation of this task becomes a
+		// registered variable ($prev) of another expression: from now on it
+		// is "a value registered as a variable" and must never change
+		ei := r.lookupExpr(ti, op.Expr)
+		src := &r.results[ti][op.Version]
+		if src.val == nil {
+			res.Outcome = "nothing to register"
+			return
+		}
+		if err := ei.e.RegisterVars(map[string]interface{}{"prev": src.val}); err != nil {
+			res.Outcome = "err"
+			return
+		}
+		ei.resultVar = true
+		r.tracked[ti] = append(r.tracked[ti], trackedVar{val: src.val, canon: oracle.Canon(src.val), from: op.Version})
+		res.Outcome = "ok"
 	case "evalbytes":
 		ei := r.lookupExpr(ti, op.Expr)
 		out, err := ei.e.EvalBytes([]byte(r.docs[op.Doc].spec.JSON))
@@ -741,6 +775,14 @@ func (r *runner) afterOp(ti, oi int, op *Op, res *OpResult) {
 		return
 	}
 	key := ei.family + "|" + ei.text
+	for i := range r.tracked[ti] {
+		tv := &r.tracked[ti][i]
+		if now := oracle.Canon(tv.val); now != tv.canon && !tv.reported {
+			tv.reported = true
+			res.Checks = append(res.Checks, Violation{Property: "C07", Class: "var-changed", Oracle: "result-variable", Key: key,
+				Task: ti, Op: oi, Detail: fmt.Sprintf("the result of operation %d, registered as $prev, was %s and is now %s", tv.from, clip(tv.canon, 200), clip(now, 200))})
+		}
+	}
 	if s := ei.e.String(); s != ei.str0 {
 		res.Checks = append(res.Checks, Violation{Property: "C05", Class: "syntax-tree-changed", Oracle: "string", Key: key,
 			Task: ti, Op: oi, Detail: fmt.Sprintf("String() was %q, now %q", ei.str0, s)})
@@ -827,7 +869,7 @@ func (r *runner) postChecks(res *Result) {
 					nontriv[hex.EncodeToString(h[:6])] = true
 				}
 			}
-			if r.model != nil {
+			if r.model != nil || ei.resultVar {
 				continue
 			}
 			tk := tripleKey(ei.text, r.docs[op.Doc], ei.vars, ei.exts)
